@@ -55,6 +55,9 @@ _DERIVE = ['to_frame', 'to_frame_go', 'to_frame_he', 'frame_init', 'framego_init
 _READS = ['columns_values', 'values', 'shape', 'repr', 'dtypes', 'columns_len', 'loc_last']
 
 
+TECHNIQUE = 'runtime monitoring: history checker for grow-only containers (accepted growth appends exactly; rejected growth leaves the pre-call snapshot; every earlier derived container unchanged incl. membership of new labels)'
+
+
 def probes(ctx):
     start = {'rows': [0, 1], 'row_kind': 'auto', 'cols': ['a', 'b'], 'col_kind': 'str', 'dtypes': ['int64', 'int64'], 'cells': [[1, 2], [3, 4]], 'start_from': 'framego'}
     return [{'t': 'frame', 'start': start, 'steps': [('grow', 'extend_items_dup_mid', ['n0', 'n1', 'n2'], 'int64', [[1, 2], [3, 4], [5, 6]], 7)]}]
